@@ -855,6 +855,16 @@ pixman_image_set_alpha_map (pixman_image_t *image,
 
     return_if_fail (!alpha_map || alpha_map->type == BITS);
 
+    if (alpha_map == image)
+    {
+	/* An image can't be its own alpha map: it would be an image that
+	 * has an alpha map and is used as one at the same time, the
+	 * reference it holds on itself would never be dropped, and
+	 * _pixman_image_validate() would not terminate.
+	 */
+	return;
+    }
+
     if (alpha_map && common->alpha_count > 0)
     {
 	/* If this image is being used as an alpha map itself,
